@@ -1,6 +1,7 @@
 From GM Require Import Base.Prelude Base.Outcome Codec.Packets Engine.Model Engine.Instance
   Client.Backoff Client.Impl Client.Driver Client.MiniEngine Client.ImplEngine
-  ClientProofs.ImplP ClientProofs.LifecycleW ClientProofs.EngineFactsP Properties.C12.
+  ClientProofs.ImplP ClientProofs.LifecycleW ClientProofs.EngineFactsP ClientProofs.ComposedP Properties.C12.
+From GM Require EngineProofs.WFDefs.
 Open Scope N_scope.
 Check C12_transition_table : forall cur des stop, cost cur des stop = cost_spec cur des stop.
 Check C12_transition_table_complete :
@@ -92,3 +93,69 @@ Print Assumptions C12_stop_waits_only_when_established.
 Print Assumptions C12_restartable.
 Print Assumptions C12_close_terminal.
 Print Assumptions C12_engine_model_opened.
+Check C12_engine_model_facts : forall cfg, ok_cfg cfg ->
+  engine_facts_inv istate ImplEngine.U packet (IWF cfg) clock_ms_ok ie_tag (ie_user cfg) (ie_disc cfg) (ie_reset cfg)
+    (ie_opened cfg) (ie_closed cfg) (ie_data cfg) (ie_wc cfg) (ie_service cfg).
+Check C12_engine_model_init_wf : forall cfg k, IWF cfg (i_init cfg k) /\ ie_tag (i_init cfg k) = TDisconnected.
+Check C12_composed_event_grammar : forall cfg, ok_cfg cfg -> forall k thr bc timeout h, i_clock_ok h ->
+  grammar_ok (d_log (i_drun cfg thr (i_dinit cfg k bc timeout) h)) = true.
+Check C12_composed_loop_alive : forall cfg, ok_cfg cfg -> forall k thr bc timeout h, i_clock_ok h ->
+  d_status (i_drun cfg thr (i_dinit cfg k bc timeout) h) <> Dead.
+Check C12_composed_stop_stops : forall cfg, ok_cfg cfg -> forall k thr bc timeout h now, i_clock_ok h ->
+  let s := i_drun cfg thr (i_dinit cfg k bc timeout) h in
+  d_status s = Running -> c_des (d_c s) = CStopped -> (cur s <> CConnected \/ c_stop (d_c s) <> SDisc) ->
+  let s' := check istate (ie_opened cfg) (ie_closed cfg) thr s now in
+  d_status s' = Running /\ cur s' = CStopped /\ c_des (d_c s') = CStopped /\
+  exists evs, d_log s' = d_log s ++ evs /\
+              count_stopped evs = (if cstate_eqb (cur s) CStopped then 0 else 1)%nat /\
+              existsb is_attempt_ev evs = false.
+Check C12_composed_stop_stops_two_events : forall cfg, ok_cfg cfg -> forall k thr bc timeout h now now' d, i_clock_ok h ->
+  let s := i_drun cfg thr (i_dinit cfg k bc timeout) h in
+  d_status s = Running -> d_flush s = false -> d_pos s = 0 ->
+  c_stop (handle_op istate ImplEngine.U packet ie_tag (ie_user cfg) (ie_disc cfg) (ie_reset cfg) (d_c s) now (OpStop d)) <> SDisc ->
+  let s2 := i_dstep cfg thr (i_dstep cfg thr s now (DOp (OpStop d))) now' DCheck in
+  d_status s2 = Running /\ cur s2 = CStopped /\ c_des (d_c s2) = CStopped /\
+  exists evs, d_log s2 = d_log s ++ evs /\
+              count_stopped evs = (if cstate_eqb (cur s) CStopped then 0 else 1)%nat /\
+              existsb is_attempt_ev evs = false.
+Check C12_composed_stop_waits_only_when_established : forall cfg, ok_cfg cfg -> forall k thr bc timeout h now d, i_clock_ok h ->
+  let s := i_drun cfg thr (i_dinit cfg k bc timeout) h in
+  d_status s = Running ->
+  let c' := handle_op istate ImplEngine.U packet ie_tag (ie_user cfg) (ie_disc cfg) (ie_reset cfg) (d_c s) now (OpStop d) in
+  c_stop c' = SDisc -> c_cur c' = CConnected /\ s_st (c_eng c') = Connected.
+Check C12_composed_restartable : forall cfg k thr bc timeout h now,
+  let s := i_drun cfg thr (i_dinit cfg k bc timeout) h in
+  d_status s = Running -> cur s = CStopped -> c_des (d_c s) = CConnected ->
+  let s' := check istate (ie_opened cfg) (ie_closed cfg) thr s now in
+  cur s' = CConnecting /\ d_log s' = d_log s ++ [EvAttempt] /\ d_status s' <> Dead.
+Check C12_composed_close_terminal : forall cfg, ok_cfg cfg -> forall k thr bc timeout h now k', i_clock_ok h ->
+  let s := i_drun cfg thr (i_dinit cfg k bc timeout) h in
+  d_status s = Running -> c_des (d_c s) = CShutdown -> (cur s <> CConnected \/ c_stop (d_c s) <> SDisc) ->
+  let s' := check istate (ie_opened cfg) (ie_closed cfg) thr s now in
+  d_status s' = Exited /\
+  existsb is_attempt_ev (skipn (length (d_log s)) (d_log s')) = false /\
+  i_drun cfg thr s' k' = s'.
+Check C12_composed_engine_wf : forall cfg, ok_cfg cfg -> forall k thr bc timeout h, i_clock_ok h ->
+  d_status (i_drun cfg thr (i_dinit cfg k bc timeout) h) = Running ->
+  IWF cfg (c_eng (d_c (i_drun cfg thr (i_dinit cfg k bc timeout) h))).
+Check C12_composed_run :
+  ok_cfg w_cfg /\ i_clock_ok w_composed_history /\
+  forall thr,
+  w_connack_wire = [32; 3; 0; 0; 0] /\
+  (let s := i_drun w_cfg thr w_init (firstn 11 w_composed_history) in
+   d_log s = [EvAttempt; EvSuccess] /\ cur s = CConnected /\ c_stop (d_c s) = SDisc /\ s_st (c_eng (d_c s)) = Connected) /\
+  (let s := i_drun w_cfg thr w_init w_composed_history in
+   d_log s = [EvAttempt; EvSuccess; EvDisconnection EUserInitiatedDisconnect false; EvStopped] /\
+   cur s = CStopped /\ d_status s = Running /\ s_st (c_eng (d_c s)) = Disconnected /\
+   map fst (map fst (d_conns s)) = [[16; 15; 0; 4; 77; 81; 84; 84; 5; 2; 0; 0; 0; 0; 2; 97; 97; 224; 0]]).
+Print Assumptions C12_engine_model_facts.
+Print Assumptions C12_engine_model_init_wf.
+Print Assumptions C12_composed_event_grammar.
+Print Assumptions C12_composed_loop_alive.
+Print Assumptions C12_composed_stop_stops.
+Print Assumptions C12_composed_stop_stops_two_events.
+Print Assumptions C12_composed_stop_waits_only_when_established.
+Print Assumptions C12_composed_restartable.
+Print Assumptions C12_composed_close_terminal.
+Print Assumptions C12_composed_engine_wf.
+Print Assumptions C12_composed_run.
